@@ -284,8 +284,11 @@ def forest_problems(d):
 def forest_shape(d):
     ch = d.children()
 
-    def canon(u):
-        return '(' + ''.join(sorted(canon(c) for c in ch.get(u, []))) + ')'
+    def canon(u, depth=0):
+        if depth > 12:
+            return '(...)'
+        return '(' + ''.join(sorted(canon(c, depth + 1)
+                                    for c in ch.get(u, []))) + ')'
     return ''.join(sorted(canon(u) for u, p in d.providers.items()
                           if p['parent'] is None))
 
@@ -432,7 +435,14 @@ def _rp_facets(d, u):
     return inv, tr, ag
 
 
-def c10(step, res):
+def c10_concurrent(step, res):
+    """C10 clauses that are well defined on one committing step of a
+    concurrent run (the 'returned == subsequently read' clause is not: another
+    request may commit between the write and any read)."""
+    return c10(step, res, returned_clause=False)
+
+
+def c10(step, res, returned_clause=True):
     before, after = step.before, step.after
     rn = step.rname()
     st = step.resp.status
@@ -523,7 +533,8 @@ def c10(step, res):
                             rn, c, cb['generation'], ca['generation']),
                         step.witness())
     # generation returned by a write == generation subsequently read
-    if step.ok and not is_read and isinstance(step.resp.json, dict):
+    if returned_clause and step.ok and not is_read and \
+            isinstance(step.resp.json, dict):
         j = step.resp.json
         u = step.params.get('uuid')
         g = None
